@@ -450,6 +450,34 @@ func c11ConcurrentPrivate(c *core.Ctx, k *core.Case) {
 	}
 }
 
+// oracle "concurrent-readers": I=[overflow, sqn, workers, reads] — several goroutines only READ
+// the sequence number and the overflow part of ONE quiescent Count (SQN and Overflow; Get
+// normalises the stored word and is a writer in that sense, so it stays out). Every read
+// returns the model's value; under the race detector a read that stores is reported.
+func c11ConcurrentReaders(c *core.Ctx, k *core.Case) {
+	var cnt security.Count
+	cnt.Set(uint16(k.I[0]), uint8(k.I[1]))
+	g, n := int(k.I[2]), raceScale(int(k.I[3]))
+	msgs := concurrentProbe(g, n, func(w, i int) string {
+		var o uint16
+		var s uint8
+		if (w+i)%2 == 0 {
+			o, s = cnt.Overflow(), cnt.SQN()
+		} else {
+			s, o = cnt.SQN(), cnt.Overflow()
+		}
+		if int64(o) != k.I[0] || int64(s) != k.I[1] {
+			return fmt.Sprintf("reader %d read Overflow()=%#x SQN()=%#x of a counter nobody writes, set to (%#x, %#x)", w, o, s, k.I[0], k.I[1])
+		}
+		return ""
+	})
+	c.Eval(int64(g * n))
+	c.Count("concurrent_reads", int64(g*n))
+	if len(msgs) > 0 {
+		c.Fail(k, "concurrent-readers-mismatch", msgs[0])
+	}
+}
+
 // oracle "blind-wraps": I=[overflow0, sqn0, wraps, extra, touch, order] — wraps x 2^24 +
 // extra increments with no read in between (touch=1: the sequence number is re-set to
 // its current value every 2^20 increments, which changes nothing), then one read of
@@ -537,7 +565,7 @@ func init() {
 			"states are reached through the public Set(overflow, sqn); the unexported field is never written directly",
 			"bits 24..31 of the internal word are unobservable and not judged",
 		},
-		Oracles: map[string]func(*core.Ctx, *core.Case){"cold-entries": coldEntries, "history": c11History, "sweep": c11Sweep, "blind-seq": c11BlindSeq, "blind-enum": c11BlindEnum, "blind-runs": c11BlindRuns, "blind-wraps": c11BlindWraps, "copies": c11Copies, "concurrent-private": c11ConcurrentPrivate, "cold-concurrent": coldConcurrent},
+		Oracles: map[string]func(*core.Ctx, *core.Case){"cold-entries": coldEntries, "history": c11History, "sweep": c11Sweep, "blind-seq": c11BlindSeq, "blind-enum": c11BlindEnum, "blind-runs": c11BlindRuns, "blind-wraps": c11BlindWraps, "copies": c11Copies, "concurrent-private": c11ConcurrentPrivate, "concurrent-readers": c11ConcurrentReaders, "cold-concurrent": coldConcurrent},
 		Exhaustive: func(tier string) (bool, string) {
 			return true, "the increment relation and the value/overflow/sqn identity are checked from all 2^24 states; operation sequences are sampled"
 		},
@@ -608,6 +636,13 @@ func init() {
 				c.Do(&core.Case{Oracle: "blind-enum", Target: "security.Count", I: []int64{int64(si), int64(c.Pick(4, 5))}})
 			}})
 		}
+		us = append(us, core.Unit{Name: "concurrent-readers", Weight: 10, Run: func(c *core.Ctx) {
+			for i := 0; i < 4; i++ {
+				k := &core.Case{Oracle: "concurrent-readers", Target: "security.Count", I: []int64{int64(c.R.Intn(65536)), int64(c.R.Intn(256)), 8, int64(c.Pick(200000, 2000000))}}
+				c.Do(k)
+				c.NonTrivial(k.Hash())
+			}
+		}})
 		us = append(us, core.Unit{Name: "concurrent-private", Weight: 30, Run: func(c *core.Ctx) {
 			for i := 0; i < c.Pick(2, 6); i++ {
 				k := &core.Case{Oracle: "concurrent-private", Target: "security.Count", I: []int64{int64(c.R.Uint64() >> 1), 8, int64(c.Pick(2000000, 8000000))}}
